@@ -134,6 +134,60 @@ func c02ExpiryRace() *sched.Scenario {
 		}}
 }
 
+// c02SlowDeleteCallback: the operator's OnChannelDeleted / OnPermissionDeleted callback takes 2 s. An entry that
+// has run out authorises nothing from its deadline on - also while the callback that reports its end (or the end of
+// a sibling with the same deadline) is still running. kind "chan": ChannelBind(A) with channel timeout 1 s and
+// permission timeout 500 ms, A sends at 1.5 s. kind "perm": CreatePermission[A, B] with timeout 1 s, B sends at 1.5 s.
+func c02SlowDeleteCallback(kind string) *sched.Scenario {
+	return &sched.Scenario{Name: "c02-peer-datagram-during-slow-" + kind + "-deleted-callback", Bound: bound(), FreeBound: 3, Opt: opt,
+		Body: func(*vsched.Sched) (func() []string, func()) {
+			cb := func(k string) {
+				if k == kind+"-" {
+					vsched.IdleSleep(2 * time.Second)
+				}
+			}
+			cfg := sched.BCfg{Chan: time.Second, Perm: 500 * time.Millisecond, CB: cb}
+			if kind == "perm" {
+				cfg = sched.BCfg{Perm: time.Second, CB: cb}
+			}
+			w := sched.NewBW(cfg)
+			c := w.NewClient("c1")
+			pa, pb := w.NewPeer("A"), w.NewPeer("B")
+			var nt notes
+			vsched.Go("client", func() {
+				r := c.Do(wire.Allocate, udp)
+				relay, _ := r.XorAddr(wire.AttrXORRelayedAddress)
+				sender := pa
+				if kind == "perm" {
+					c.Do(wire.CreatePermission, func(b *wire.B) { peer("A")(b); peer("B")(b) })
+					sender = pb
+				} else {
+					c.Do(wire.ChannelBind, chanAttrs(0x4000, "A"))
+				}
+				vsched.IdleSleep(1500 * time.Millisecond)
+				c.Sock.Drain()
+				vsched.Mark()
+				_, _ = sender.WriteTo([]byte("half-a-second-after-the-deadline"), relay)
+				vsched.IdleSleep(5 * time.Second)
+				nt.set("at-client", fmt.Sprint(c.Sock.Pending()))
+			})
+
+			return func() []string {
+				if os.Getenv("VERIF_DEBUG_FAIL") != "" {
+					return []string{"debug:forced"}
+				}
+				switch nt.get("at-client") {
+				case "":
+					return []string{"c02:client-never-completed"}
+				case "0":
+					return nil
+				}
+
+				return []string{"c02:datagram-of-a-peer-whose-entry-has-run-out-reached-the-client:" + kind}
+			}, func() { _ = w.Srv.Close() }
+		}}
+}
+
 // ---------------------------------------------------------------- C05
 
 // c05StreamRelayVsResponse: over a stream listener two goroutines write to the client's connection: the relay loop
@@ -1042,7 +1096,7 @@ func run(t *testing.T, prop string, scs ...*sched.Scenario) {
 }
 
 func TestC02Sched(t *testing.T) {
-	run(t, "C02", c02ExpiryRace(), c07RefreshVsExpiryDir("perm", true))
+	run(t, "C02", c02ExpiryRace(), c07RefreshVsExpiryDir("perm", true), c02SlowDeleteCallback("chan"), c02SlowDeleteCallback("perm"))
 }
 func TestC19Sched(t *testing.T) {
 	run(t, "C19", c19RetransmitDuringSlowAllocate(), c19ErrorPreparedBeforeSlowGenerator())
